@@ -126,6 +126,29 @@ def main(tier):
                                              'a fitting predicate, a thread returned something else than its sequential text',
                                    'results': [str(x)[:200] for x in res], 'expected': ref})
         run.coverage['layout_region_schedules'] = nlay
+        # preemptions at ANY line of the package while printing mixed values (strings being split, comments,
+        # calls, shared sub-objects): whatever state a call keeps, it keeps to itself
+        nall = 0
+        for k in range(80 if tier == 'quick' else 1500):
+            nth = r.choice([2, 2, 3])
+            s, last = [], None
+            for _k in range(r.randint(2, 10)):
+                t = r.choice([x for x in range(nth) if x != last])
+                s += [t] * r.choice([1, 3, 10, 40, 150, 600, 2000])
+                last = t
+            widths = [r.choice([20, 40, 79]) for _ in range(nth)]
+            res, ref = sched.run_all_lines(nth, list(s), widths)
+            letters = [outcome_letter(res[i], ref[i]) for i in range(nth)]
+            nall += 1
+            run.count(1)
+            if any(x != 'P' for x in letters):
+                viol += 1
+                if viol <= 3:
+                    run.violation({'kind': 'all-lines', 'threads': nth, 'schedule': s, 'widths': widths, 'outcomes': letters,
+                                   'detail': 'threads printing mixed values, preempted at arbitrary lines of the package: a '
+                                             'thread returned something else than its sequential text',
+                                   'results': [str(x)[:200] for x in res], 'expected': [x[:200] for x in ref]})
+        run.coverage['all_lines_schedules'] = nall
         dis = 0
         if reqs:
             out = run_driver(reqs, shards=1)
@@ -151,7 +174,8 @@ def main(tier):
             '_run_pretty (where visits start and end): every single-preemption schedule up to 70 (thorough: 140) lines '
             'and seeded random interleavings; same or different widths per thread; 2-3 threads laying out different values, '
             'gated on the line events of best_layout and both fitting predicates (seeded random interleavings, runs of '
-            '1..120 lines). '
+            '1..120 lines); 2-3 threads printing mixed values (split strings, comments, calls, shared objects) gated on EVERY '
+            'line executed inside the package (seeded random interleavings, runs of 1..2000 lines). '
             'non-trivial = runs in which both/all threads executed traced lines before the drain')
     return run.finish()
 
@@ -162,6 +186,11 @@ def replay(path):
     if 'schedule' not in p:
         print(json.dumps(p, indent=1)[:3000])
         return 1
+    if p.get('kind') == 'all-lines':
+        res, ref = sched.run_all_lines(p['threads'], p['schedule'], p['widths'])
+        letters = [outcome_letter(res[i], ref[i]) for i in range(p['threads'])]
+        print(letters, [str(x)[:150] for x in res])
+        return 0 if all(x == 'P' for x in letters) else 1
     if p.get('kind') == 'layout':
         res, ref = sched.run_layout(p['threads'], p['schedule'], p['widths'])
         letters = [outcome_letter(res[i], ref[i]) for i in range(p['threads'])]
